@@ -44,6 +44,7 @@ var (
 	// excise spans stay in the flushable queue, reads go through them); release: let them go and
 	// wait. flush/compact/waitefos/ratchet/close release by themselves.
 	hold, release = hx.Op{K: "hold"}, hx.Op{K: "release"}
+	snapiter      = hx.Op{K: "snapiter"}
 )
 
 // bulk pre-state for value separation: 60 keys k00..k59 with 200-byte distinct values (every 5th
@@ -113,6 +114,9 @@ func plansFor(prop string, th bool) []plan {
 			// Pebble's default compaction thresholds: after the tombstone is flushed nothing but a
 			// delete-only compaction (driven by the table-stats hint) is eligible
 			{name: "snapshots-default-thresholds-tablestats", cfg: autoDef, mon: rd, pre: []hx.Op{setA, setB, flush, compact}, alpha: []hx.Op{snap, drAC, flush, setA, closesnap, delA, drAB, snap}, depth: d(3, 4), need: [][]string{{"snap"}, {"delrange"}}},
+			// two snapshots closed newest-first: the older one still pins what pending deletion hints
+			// would otherwise be allowed to drop
+			{name: "snapshots-close-newest-first", cfg: autoDef, mon: rd, pre: []hx.Op{setA, setB, flush, compact, snap}, alpha: []hx.Op{drAC, snap, flush, {K: "closesnapnew"}, closesnap, setA}, depth: d(4, 5), need: [][]string{{"closesnapnew"}, {"delrange"}}},
 			{name: "snapshots-held-flushes", cfg: deepQ, mon: rd, alpha: []hx.Op{hold, setA, snap, ingA, delA, exAB, release, batchBig, closesnap, ingExAC, flush}, depth: d(4, 5), need: [][]string{{"snap"}, {"hold"}, {"ingest", "excise", "ingestexcise", "batch"}}},
 			{name: "snapshots-with-excise", cfg: baseCfg, mon: rd, alpha: []hx.Op{setA, setB, snap, exAB, flush, delA, compact, ingExAC, closesnap}, depth: d(4, 5), need: [][]string{{"snap"}, {"excise", "ingestexcise"}}},
 		}
@@ -129,6 +133,10 @@ func plansFor(prop string, th bool) []plan {
 			{name: "iterators-l0+l6", cfg: baseCfg, mon: rd, pre: l0l6, alpha: a, depth: d(3, 4), need: [][]string{{"iter"}, maint}},
 			{name: "iterators-autocompact", cfg: auto, mon: rd, alpha: a[:9], depth: d(3, 4), need: [][]string{{"iter"}}},
 			{name: "iterators-tinymem", cfg: tinyMem, mon: rd, alpha: a, depth: d(3, 4), need: [][]string{{"iter"}}},
+			// iterators created on a snapshot that is closed while they stay open, cloned after later
+			// batches overwrote part of what they show and a flush/compaction rewrote the data
+			{name: "iterators-on-closed-snapshots", cfg: baseCfg, mon: rd, pre: []hx.Op{batchAB, setC, snap, snapiter, closesnap}, alpha: []hx.Op{setA, batchAB, flush, compact, clone, batchBig, delA, closeiter}, depth: d(4, 5), need: [][]string{{"clone"}, {"flush", "compact"}}},
+			{name: "iterators-on-snapshots", cfg: baseCfg, mon: rd, pre: []hx.Op{batchAB, setC}, alpha: []hx.Op{snap, snapiter, closesnap, setA, flush, compact, clone}, depth: d(4, 6), need: [][]string{{"snapiter"}}},
 			{name: "iterators-held-flushes", cfg: deepQ, mon: rd, alpha: []hx.Op{hold, setA, iter, ingA, delA, exAB, release, batchBig, clone, ingExAC, closeiter}, depth: d(4, 5), need: [][]string{{"iter"}, {"hold"}, {"ingest", "excise", "ingestexcise", "batch"}}},
 		}
 		return ps
